@@ -26,5 +26,9 @@ for x in v:
         continue
     seen.add(k)
     print("VIOL", x["prop"], x["profile"], x["family"], x["universe"]["id"], x["what"][:300])
+pairs = sorted(set((x["prop"], x["family"]) for x in v))
+caught = sorted(set(p for p, f in pairs if f in cert_prop.FAMILIES_OF.get(p, [])))
+print("PAIRS", json.dumps(pairs))
+print("CAUGHT_BY_CHECKS", json.dumps(caught))
 print("distinct violation keys:", len(seen), "total", len(v))
 sc.cleanup()
